@@ -17,6 +17,7 @@ import Aqv.Lemmas.EvmOps
 import Aqv.Lemmas.EvmGas
 import Aqv.Lemmas.EvmBitmap
 import Aqv.Model.EvmSelect
+import Aqv.Lemmas.EvmRun
 namespace Aqv.Props.C08
 open Aqv Aqv.Big Aqv.Evm Aqv.Gen.VmTable
 
@@ -177,6 +178,114 @@ example : codeSegment (codeBitmap #[0x60, 0x5b, 0x5b]) 1 = false ∧ codeSegment
 theorem jumpdest_valid_iff (code : Array UInt8) (dest : Nat) (hsize : code.size < 2 ^ 62) :
     hasJumpdest code (dest : Int) = EvmSpec.validJumpdest code.toList dest := Evm.hasJumpdest_eq code dest hsize
 example : hasJumpdest #[0x5b] ((2 ^ 64 : Nat) : Int) = false ∧ hasJumpdest #[0x5b] ((0 : Nat) : Int) = true := by decide
+
+
+/-! ## stack, memory, call-data / code / return-data access, control flow: the Go bodies against the Yellow Paper
+
+  `implExec` mirrors makePush, Stack.dup/swap (slice with the top LAST), Memory.Get/GetPtr/Set with their Uint64() truncations
+  and panics, getDataBig + RightPadBytes, PaddedBigBytes, opReturnDataCopy's bounds check, destinations.has.
+  `specExec` is pointwise: `specRead d off n` = bytes d[off+i] (0 past the end), `specWrite` = memory with a range replaced. -/
+
+/-- CALLDATALOAD / CALLDATACOPY / CODECOPY source bytes: getDataBig (clamp start and end to the data, right-pad) reads
+    data[start+i], zero past the end — for EVERY start (also ≥ 2⁶⁴, ≥ len) and every size below 2⁶⁴ -/
+theorem getDataBig_spec (data : Bytes) (start size : Nat) (h : size < 2 ^ 64) :
+    getDataBig data start size = specRead data start size := Evm.getDataBig_spec data start size h
+example : getDataBig [1, 2, 3] 2 4 = [3, 0, 0, 0] ∧ getDataBig [1, 2, 3] (2 ^ 200) 2 = [0, 0] := by decide
+
+/-- PUSHn: the operand is the n code bytes after the opcode, zero where the code has ended (makePush's startMin/endMin) -/
+theorem opPush_spec (code : Bytes) (pc n : Nat) :
+    rightPad ((code.drop (min code.length (pc + 1))).take (min code.length (min code.length (pc + 1) + n) - min code.length (pc + 1))) n
+      = specRead code (pc + 1) n := Evm.pushSlice_eq code pc n
+
+/-- DUPn on the Go slice (top last) pushes the n-th word from the top -/
+theorem opDup_spec (st : List Int) (n : Nat) (h1 : 1 ≤ n) (h2 : n ≤ st.length) :
+    st.reverse.getD (st.reverse.length - n) 0 = st.getD (n - 1) 0 := Evm.dup_spec st n h1 h2
+example : (1 : Nat) ≤ 16 ∧ 16 ≤ (List.replicate 16 (7 : Int)).length := by decide
+
+/-- SWAPk on the Go slice exchanges the top with the k-th word below it and nothing else -/
+theorem opSwap_spec (st : List Int) (k : Nat) (h1 : 1 ≤ k) (h2 : k + 1 ≤ st.length) :
+    ((st.reverse.set (st.reverse.length - (k + 1)) (st.reverse.getD (st.reverse.length - 1) 0)).set (st.reverse.length - 1)
+        (st.reverse.getD (st.reverse.length - (k + 1)) 0)).reverse
+      = (st.set 0 (st.getD k 0)).set k (st.getD 0 0) := Evm.swap_spec st k h1 h2
+
+/-- MLOAD / SHA3 / RETURN source: Memory.Get / GetPtr never panics and returns exactly mem[off .. off+size) once the
+    prologue has grown the memory over the range -/
+theorem memoryGet_spec (mem : Bytes) (off size : Nat) (h : size ≠ 0 → off + size ≤ mem.length) :
+    memGet mem off size = some (specRead mem off size) := Evm.memGet_spec mem off size h
+
+/-- MSTORE / *COPY destination: Memory.Set never panics and replaces exactly [off, off+size) -/
+theorem memorySet_spec (mem : Bytes) (off size : Nat) (value : Bytes) (hv : value.length = size)
+    (h : size ≠ 0 → off + size ≤ mem.length) : memSet mem off size value = some (specWrite mem off value) :=
+  Evm.memSet_spec mem off size value hv h
+
+/-- MSTORE writes the 32-byte big-endian word (math.PaddedBigBytes) -/
+theorem opMstore_word_spec (v : Nat) (hv : v < 2 ^ 256) : paddedBigBytes v 32 = specWord v := Evm.paddedBigBytes_spec v hv
+
+/-- RETURNDATACOPY: the exceptional halt happens exactly when the copy reads past the end of the return-data buffer -/
+theorem returnDataCopy_oob_iff (rdLen doff len : Nat) (hrd : rdLen < 2 ^ 64) :
+    (bitLen ((doff : Int) + (len : Int)) > 64 ∨ rdLen < uint64 ((doff : Int) + (len : Int))) ↔ doff + len > rdLen :=
+  Evm.returnDataCopy_oob_iff rdLen doff len hrd
+
+/-- the five generated tables, decoded by the FUNCTION NAMES they hold (which memory-size function, which gas function), are
+    the hand-written specification tables — so the loop of both interpreters sees the same entry for every opcode -/
+theorem tables_decode_to_spec : ∀ e ∈ Epoch.all,
+    (table e).map (fun i => (i.op, implEntry i)) = (EvmSpec.opcodeTable (epochLevel e)).map (fun r => (r.op, specEntry r)) :=
+  Evm.tables_entries_agree
+
+/-- prologue of one step (memory size request with its uint64 overflow checks, quadratic memory fee, gas function,
+    lastGasCost): Go and Yellow Paper decide the same — both accept with the same size / cost / lastGasCost, or both halt
+    exceptionally, or the opcode is outside the modelled subset — on every machine that satisfies the run invariant and whose
+    operands are not in the memory-wrap deviation set -/
+theorem step_prologue_spec (gt : GasTable) (eb : Nat) (hgt : gt.expByte = eb) (heb : eb = 10 ∨ eb = 50)
+    (en : Entry) (hwf : wfEntry en) (opc : Nat) (m : Machine) (hinv : Inv m) (hdev : devSet en opc m = false) :
+    PreRel m.gas (PreFacts en m) (implPre gt en opc m) (specPre eb en opc m) :=
+  Evm.pre_agree gt eb hgt heb en hwf opc m hinv hdev
+
+/-- one executed instruction (all of: PUSH1‥32, DUP1‥16, SWAP1‥16, POP, the 25 computational opcodes, SHA3, ADDRESS, ORIGIN,
+    CALLER, CALLVALUE, CALLDATALOAD/SIZE/COPY, CODESIZE/COPY, GASPRICE, RETURNDATASIZE/COPY, COINBASE, TIMESTAMP, NUMBER,
+    DIFFICULTY, GASLIMIT, MLOAD, MSTORE, MSTORE8, JUMP, JUMPI, PC, MSIZE, GAS, JUMPDEST, STOP, RETURN, REVERT): the Go body and
+    the Yellow-Paper definition give the same step — same stack, memory, pc, return data, same exceptional halt (bad jump
+    destination, return-data out of bounds), and the Go slice operations cannot panic — once the memory spans the touched
+    range and the operands are not SAR's deviation set -/
+theorem step_exec_spec (env : Env) (H : Bytes → Bytes) (en : Entry) (opc : Nat) (m : Machine) (h : ExecHyp env H en opc m) :
+    implExec env H en opc m = specExec env H en opc m := Evm.exec_agree env H en opc m h
+
+/-- WHOLE PROGRAMS, guarded form: for every code, call data, return-data buffer, epoch, gas table, fuel and start machine
+    satisfying the invariant (in particular the empty machine with any gas budget below 2⁶⁰), the Go-mirroring interpreter
+    and the Spec interpreter — both stopping with `deviation` when a step's operands lie in `devSet` — produce the same outcome
+    (return data, gas left, stack at the halting instruction, halt class up to the kind of exceptional halt). -/
+theorem run_refines_spec_guarded (env : Env) (H : Bytes → Bytes) (hE : EnvOk env H) (e : Epoch) (gt : GasTable) (eb : Nat)
+    (hgt : gt.expByte = eb) (heb : eb = 10 ∨ eb = 50) (fuel : Nat) (m : Machine) (hinv : Inv m) :
+    (runImpl env H e gt devSet fuel m).norm = (runSpec env H (epochLevel e) eb devSet fuel m).norm :=
+  Evm.run_agree env H hE e gt eb hgt heb fuel m hinv
+
+/-- FULL STATEMENT (false for the code as written, by `sar_zero_witness` and `memgas_wrap_witness`): the two unguarded
+    interpreters agree on every program.
+    PARTIAL: they agree on every program whose (Spec) execution never reaches a step with operands in one of exactly two sets
+    (`devSet`): (1) SAR with shift ≥ 256 and value 0; (2) a memory request whose word-rounded size lies in
+    (0x1fffffffe0, 0xffffffffe0] bytes. Hypotheses besides that: gas below 2⁶⁰ (assumption A1), code shorter than 2⁶² bytes,
+    Keccak output 32 bytes long (Keccak itself is a parameter). -/
+theorem run_refines_spec_partial (env : Env) (H : Bytes → Bytes) (hE : EnvOk env H) (e : Epoch) (gt : GasTable) (eb : Nat)
+    (hgt : gt.expByte = eb) (heb : eb = 10 ∨ eb = 50) (fuel : Nat) (m : Machine) (hinv : Inv m)
+    (hnodev : runSpec env H (epochLevel e) eb devSet fuel m ≠ .deviation) :
+    (runImpl env H e gt noGuard fuel m).norm = (runSpec env H (epochLevel e) eb noGuard fuel m).norm := by
+  have hg := Evm.run_agree env H hE e gt eb hgt heb fuel m hinv
+  have hs := run_guard_irrelevant env (specLookup (epochLevel e)) (specPre eb) (specExec env H) devSet fuel m hnodev
+  have hi : run env (implLookup e) (implPre gt) (implExec env H) devSet fuel m ≠ .deviation := by
+    intro hd
+    have : (run env (specLookup (epochLevel e)) (specPre eb) (specExec env H) devSet fuel m).norm = .deviation := by
+      rw [← hg, hd]; rfl
+    exact hnodev ((norm_eq_deviation _).1 this)
+  have hi' := run_guard_irrelevant env (implLookup e) (implPre gt) (implExec env H) devSet fuel m hi
+  unfold runImpl runSpec
+  rw [← hi', ← hs]
+  exact hg
+-- non-vacuity: the empty machine with 100 000 gas satisfies the invariant; both built-in gas tables satisfy the price hypotheses;
+-- a program PUSH1 1 PUSH1 2 ADD PUSH1 0 MSTORE PUSH1 32 PUSH1 0 RETURN runs to `ok` in the guarded Spec interpreter
+example : Inv (startMachine 100000) := inv_start 100000 (by decide)
+example : gasTableHF1.expByte = 50 ∧ gasTableHomestead.expByte = 10 := by decide
+example : runSpec ⟨#[0x60, 1, 0x60, 2, 0x01, 0x60, 0, 0x52, 0x60, 32, 0x60, 0, 0xf3], [], [], 1, 2, 2, 0, 1, 0, 1000, 0, 1, 10000000⟩
+    (fun _ => List.replicate 32 0) 3 50 devSet 20 (startMachine 100000) ≠ .deviation := by decide
 
 /-! ## instruction tables and their selection -/
 
